@@ -17,43 +17,48 @@ fn key_of(row: &[V], idx: &[usize]) -> String {
     idx.iter().map(|i| row[*i].key()).collect::<Vec<_>>().join("|")
 }
 
-pub fn check(q: &DpQuery, w: &DpWorld, params: &DpParameters, rep: &mut Report) {
+/// Returns the largest number of rows one privacy unit has in any tracked stage of the execution
+pub fn check(q: &DpQuery, w: &DpWorld, params: &DpParameters, rep: &mut Report) -> Option<u64> {
+    check_inner(q, w, params, rep)
+}
+
+fn check_inner(q: &DpQuery, w: &DpWorld, params: &DpParameters, rep: &mut Report) -> Option<u64> {
     let sql = &q.sql;
     let relations = w.cat.relations();
     let rel = match compile(sql, &relations) {
         Compiled::Ok(r) => r,
         _ => {
             rep.count("parse_error_or_panic");
-            return;
+            return None;
         }
     };
     let c = match dp_compile(&rel, &relations, None, w.privacy_unit(), params.clone()) {
         Outcome::Ok(c) => c,
         Outcome::Err(_) => {
             rep.count("dp_refused");
-            return;
+            return None;
         }
         Outcome::Panic(_) => {
             rep.count("dp_panic");
-            return;
+            return None;
         }
     };
     let (noises, taus) = mechanisms(&c.relation);
     if !taus.is_empty() {
         rep.count("has_threshold_filter(not a C09 case)");
-        return;
+        return None;
     }
     let rendered = match render(&c.relation) {
         Ok(s) => s,
         Err(_) => {
             rep.count("render_panic");
-            return;
+            return None;
         }
     };
     let db = Db::new(true, RandomMode::Counter);
     if w.cat.load(&db).is_err() {
         rep.count("load_error");
-        return;
+        return None;
     }
     let original = match db.query(sql) {
         Ok(r) => r,
@@ -62,7 +67,7 @@ pub fn check(q: &DpQuery, w: &DpWorld, params: &DpParameters, rep: &mut Report) 
             if rep.notes.len() < 3 {
                 rep.notes.push(format!("engine rejects {}: {}", sql, e));
             }
-            return;
+            return None;
         }
     };
     // zero noise on the noise nodes, distinct draws elsewhere
@@ -85,7 +90,7 @@ pub fn check(q: &DpQuery, w: &DpWorld, params: &DpParameters, rep: &mut Report) 
             if rep.notes.len() < 6 {
                 rep.notes.push(format!("execution error: {} on {}", e.chars().take(300).collect::<String>(), sql));
             }
-            return;
+            return None;
         }
     };
     rep.eval();
@@ -108,16 +113,50 @@ pub fn check(q: &DpQuery, w: &DpWorld, params: &DpParameters, rep: &mut Report) 
         }
     }
     rep.add("scale_factors_observed", scale_values);
+    // rows per privacy unit in the tracked stages, and the multiplicity the clipping bounds were built with
+    // (the bound of a count column is 1 x multiplicity)
+    let mut max_rows_per_unit = 0u64;
+    for (_, rows) in stages.iter() {
+        if let Some(pi) = rows.col(qrlew::privacy_unit_tracking::PrivacyUnit::privacy_unit()) {
+            let mut per: HashMap<String, u64> = HashMap::new();
+            for r in rows.rows.iter() {
+                if !matches!(r[pi], V::Null) {
+                    *per.entry(r[pi].key()).or_insert(0) += 1;
+                }
+            }
+            max_rows_per_unit = max_rows_per_unit.max(per.values().cloned().max().unwrap_or(0));
+        }
+    }
+    let multiplicity_used: Option<f64> = c
+        .events
+        .iter()
+        .filter(|e| e.kind == "gaussian_mechanism" && e.str("column").map_or(false, |c| c.starts_with("_COUNT_")))
+        .filter_map(|e| e.f64("bound"))
+        .fold(None, |m: Option<f64>, b| Some(m.map_or(b, |x| x.min(b))));
     if clipping_active {
-        rep.count("premise_failed:clipping_active(not judged)");
-        return;
+        match multiplicity_used {
+            Some(m) if (max_rows_per_unit as f64) <= m && max_rows_per_unit > 0 => {
+                rep.count("judged");
+                rep.violation(
+                    format!("C09|clipping-active-although-no-unit-exceeds-the-multiplicity|{}", q.aggs.iter().map(|a| a.1).min().unwrap_or("none")),
+                    format!(
+                        "some scale factor is below 1 although every value is in its declared range and no privacy unit has more than {} rows (multiplicity used by the bounds: {})",
+                        max_rows_per_unit, m
+                    ),
+                    json!({"catalog": w.cat.to_json(40), "query": sql, "rendered": rendered, "dp_parameters": format!("{:?}", params),
+                           "max_rows_per_unit": max_rows_per_unit, "multiplicity": m}),
+                );
+            }
+            _ => rep.count("premise_failed:clipping_active(not judged)"),
+        }
+        return Some(max_rows_per_unit);
     }
     // referential integrity along the privacy-unit path (dangling rows are dropped by tracking)
     for t in ["orders", "items"] {
         let tab = w.cat.table(t).unwrap();
         if tab.rows.iter().any(|row| w.owner(t, row).is_none()) {
             rep.count("premise_failed:dangling_reference(not judged)");
-            return;
+            return None;
         }
     }
     rep.count("judged");
@@ -133,7 +172,7 @@ pub fn check(q: &DpQuery, w: &DpWorld, params: &DpParameters, rep: &mut Report) 
         (Some(a), Some(b)) => (a, b),
         _ => {
             rep.violation("C09|output-columns-differ".to_string(), format!("original columns {:?}, DP columns {:?}", original.columns, result.columns), case());
-            return;
+            return None;
         }
     };
     let dp_by_key: HashMap<String, &Vec<V>> = result.rows.iter().map(|r| (key_of(r, &kidx_d), r)).collect();
@@ -167,7 +206,7 @@ pub fn check(q: &DpQuery, w: &DpWorld, params: &DpParameters, rep: &mut Report) 
                     format!("group {} of the original result is absent from the DP result although noise and clipping are inactive", key),
                     case(),
                 );
-                return;
+                return None;
             }
         };
         for (alias, kind, _) in q.aggs.iter() {
@@ -193,7 +232,7 @@ pub fn check(q: &DpQuery, w: &DpWorld, params: &DpParameters, rep: &mut Report) 
                             format!("group {}: DP {} = {} but the data have population value {:?} and sample value {:?}", key, kind, dvv, pop, smp),
                             case(),
                         );
-                        return;
+                        return None;
                     }
                 }
                 _ => match (ov, dv) {
@@ -204,7 +243,7 @@ pub fn check(q: &DpQuery, w: &DpWorld, params: &DpParameters, rep: &mut Report) 
                                 format!("group {}: original {} = {}, DP rewriting with zero noise and inactive clipping = {}", key, kind, o, d),
                                 case(),
                             );
-                            return;
+                            return None;
                         }
                     }
                     (Some(o), None) => {
@@ -213,7 +252,7 @@ pub fn check(q: &DpQuery, w: &DpWorld, params: &DpParameters, rep: &mut Report) 
                             format!("group {}: original {} = {}, DP result is NULL", key, kind, o),
                             case(),
                         );
-                        return;
+                        return None;
                     }
                     (None, _) => rep.count("original_aggregate_is_null(not compared)"),
                 },
@@ -237,7 +276,7 @@ pub fn check(q: &DpQuery, w: &DpWorld, params: &DpParameters, rep: &mut Report) 
                                 format!("group {} is not in the original result but has {} = {}", key, kind, v),
                                 case(),
                             );
-                            return;
+                            return None;
                         }
                     }
                 }
@@ -247,6 +286,7 @@ pub fn check(q: &DpQuery, w: &DpWorld, params: &DpParameters, rep: &mut Report) 
     rep.sample(|| json!({"query": sql, "original_rows": original.rows.len(), "dp_rows": result.rows.len(), "scale_factors_observed": scale_values,
         "first_original_row": original.rows.first().map(|r| r.iter().map(|v| v.render()).collect::<Vec<_>>())}));
     let _: Option<&Rows> = None;
+    Some(max_rows_per_unit)
 }
 
 pub fn run(p: &Params) -> Report {
@@ -272,6 +312,11 @@ pub fn run(p: &Params) -> Report {
                     rep.count("skipped:private_keys_or_having");
                     continue;
                 }
+                if q.features.contains(&"dp_over_dp") {
+                    // the inner aggregation is itself noised and thresholded: exactness is about one level
+                    rep.count("skipped:dp_over_dp");
+                    continue;
+                }
                 if q.features.contains(&"join_nonkey") {
                     // the tracking restricts such a join to pairs of rows of the same unit: the rewritten
                     // query deliberately computes something else than the original
@@ -280,7 +325,16 @@ pub fn run(p: &Params) -> Report {
                 }
                 // generous multiplicity so that clipping stays inactive (checked, not assumed)
                 let params = DpParameters::new(*r.pick(&[0.5, 1.0, 10.0]), *r.pick(&[1e-5, 1e-3]), 0.5, 100.0, 1.0, *r.pick(&[2u64, 5, 10]));
-                check(&q, &w, &params, rep);
+                let m = check(&q, &w, &params, rep);
+                // again with the tightest multiplicity the data allows: no unit exceeds it, so clipping must
+                // stay inactive and the result exact; a bound that is too small for the declared range shows here
+                if let Some(m) = m {
+                    if m >= 1 && r.bool() {
+                        let tight = DpParameters::new(params.epsilon, params.delta, 0.5, m as f64, 1.0, params.max_privacy_unit_groups);
+                        rep.count("reruns_with_tight_multiplicity");
+                        check(&q, &w, &tight, rep);
+                    }
+                }
             }
         },
         &|i, pi, rep| {
